@@ -32,6 +32,13 @@ def jobs(tier):
     for shp in cr.scheme_shapes(["flat2", "nested3"], tier):
         for which in ("3a", "3c"):
             out.append(("%s.%s.P16384" % (which, shp), "job", dict(which=which, shape=shp, P=16384, K=1 if shp.startswith("nested3") else 2, order="reversed")))
+    for which in ("3a", "3c"):       # always in the quick tier: names holding the other platform's separator (v1 path lists vs v2 tree keys)
+        out.append(("%s.flat2~backslash.P16384" % which, "job", dict(which=which, shape="flat2~backslash", P=16384, K=1, order="reversed")))
+        out.append(("%s.nested3~backslash.P16384" % which, "job", dict(which=which, shape="nested3~backslash", P=16384, K=1, order="reversed")))
+    # a second hybrid creation in the same process with another piece length (shared buffers, memo tables)
+    for which in ("3a", "3c"):
+        out.append(("%s.second.P16384-then-P65536" % which, "job_second", dict(which=which, P1=16384, P2=65536)))
+        out.append(("%s.second.P32768-then-P16384" % which, "job_second", dict(which=which, P1=32768, P2=16384)))
     for which in ("3a", "3c"):
         for P in (16384, 32768, 65536):
             out.append(("%s.single.P%d" % (which, P), "job", dict(which=which, shape="single", P=P, K=4, order="reversed")))
@@ -69,6 +76,31 @@ def job(E, which, shape, P, K, order, align=False, _mutants=None):
             E.witnesses.setdefault("single file with short last piece", True)
 
 
+def job_second(E, which, P1, P2, _mutants=None):
+    from symx.afs import AFS
+    fs = AFS(order="reversed")
+    t0 = E.int("t0", 1, 2 * P1)
+    fs.add("/first/other/x", ("g", 0), t0)
+    fs.add("/first/other/y", ("g", 1), 5)
+    shape = "flat2"
+    rels = SHAPES[shape]
+    sizes = {}
+    for i, r in enumerate(rels):
+        sizes[r] = E.int("s%d" % i, 0, P2 + 5)
+        fs.add("/data/" + r, ("f", i), sizes[r])
+    E.assume(disj(*[s > 0 for s in sizes.values()]))
+    E.note("shape", shape)
+    w = World(fs, mutants=_mutants)
+    try:
+        cr.create(w, which, path="/first/other", piece_length=P1, progress=0)
+        t = cr.create(w, which, path="/data/name", piece_length=P2, progress=0)
+    except Exception as ex:  # noqa: BLE001
+        E.fail("C03.no-exception", "%s: %s" % (type(ex).__name__, ex))
+        return
+    orc.oracle_hybrid_v1(E, t.meta, sizes, P2, shape, "C03.second")
+    E.witness("file needs padding", tb(sizes[rels[0]] > 0) and sizes[rels[0]] % P2 != 0)
+
+
 def conc_hybrid(meta, data, P, shape):
     info = meta["info"]
     order = cr.tree_order(SHAPES[shape])
@@ -77,6 +109,27 @@ def conc_hybrid(meta, data, P, shape):
 
 
 def replay(params, model, notes, workdir, seed):
+    if "P1" in params:
+        shape = "flat2"
+        sizes = cr.concrete_sizes(shape, model)
+        root, data = cr.materialize(workdir, shape, sizes, seed)
+        refconc.write_file(os.path.join(workdir, "first", "other", "x"), refconc.content(("g", 0), int(model["t0"]), seed))
+        refconc.write_file(os.path.join(workdir, "first", "other", "y"), refconc.content(("g", 1), 5, seed))
+        mods = cr.real_torrentfile()
+        T = mods["torrentfile.torrent"]
+        import io
+        import contextlib
+        cls, mv = cr.CLS[params["which"]]
+        try:
+            with contextlib.redirect_stdout(io.StringIO()):
+                for pth, P in ((os.path.join(workdir, "first", "other"), params["P1"]), (root, params["P2"])):
+                    kw = dict(path=pth, piece_length=P, progress=0)
+                    if mv is not None:
+                        kw["meta_version"] = mv
+                    t = getattr(T, cls)(**kw)
+        except Exception as ex:  # noqa: BLE001
+            return ["C03.no-exception: %s: %s" % (type(ex).__name__, ex)]
+        return ["C03.second." + b for b in conc_hybrid(t.meta, data, params["P2"], shape)]
     shape, P = params["shape"], params["P"]
     sizes = cr.concrete_sizes(shape, model)
     root, data = cr.materialize(workdir, shape, sizes, seed)
